@@ -34,6 +34,7 @@ FUNCS = [
     ("distributed_shampoo/utils/shampoo_preconditioner_list.py", "AdagradPreconditionerList.compress_preconditioner_list"),
     ("distributed_shampoo/utils/shampoo_preconditioner_list.py", "AdagradPreconditionerList.update_preconditioners"),
     ("distributed_shampoo/utils/shampoo_utils.py", "compress_list"),
+    ("distributed_shampoo/utils/shampoo_ddp_distributor.py", "DDPDistributor.update_params"),
 ]
 TRUSTED = [
     "block-count parametricity: the RI transition relation is enumerated completely (all 8 x 8 previous/new presence patterns) on an instance with three equal-shaped blocks over two parameters; list code is length-generic (zip/compress/foreach only)",
@@ -50,6 +51,19 @@ CONFIGS = {
     "soap-rmsprop": dict(soap=True, graft="rmsprop", beta1=0.9, momentum=0.0),
     "soap-plain-mom": dict(soap=True, momentum=0.3),
 }
+# the same oracles through the real DDP distributor (single-process gloo group of world size 1: every block is owned locally, the gather buffers,
+# the global masked lists and update_params of the DDP distributor are the real ones); bounded tier only
+DIST_CONFIGS = {
+    "ddp-shampoo-adam-graft-mom": dict(graft="adam", beta1=0.9, momentum=0.5, ddp=dict(communicate_params=False)),
+    "ddp-params-soap-plain-mom": dict(soap=True, momentum=0.3, ddp=dict(communicate_params=True)),
+}
+ALL_CONFIGS = dict(CONFIGS, **DIST_CONFIGS)
+
+
+def _ensure_pg():
+    import torch.distributed as dist
+    if not dist.is_initialized():
+        dist.init_process_group("gloo", store=dist.HashStore(), rank=0, world_size=1)
 
 
 def cases(tier):
@@ -60,6 +74,10 @@ def cases(tier):
     # keeps each block's own counter), re-discharged here
     import itertools
     cs += [f"mask/{kind}/{''.join(map(str, m))}" for kind in ("shampoo", "eig") for m in itertools.product((0, 1), repeat=3)]
+    # "a parameter whose gradient is absent keeps its value" also through the DDP distributor's own update_params (gather buffers persist between steps):
+    # the update_params contract of C06 (blocks without gradient untouched, for every presence pattern, both communicate_params modes), re-discharged here
+    from checks import dist as D
+    cs += [c for c in D.update_params_cases("ddp") if "/f32/" in c]
     return cs
 
 
@@ -74,7 +92,11 @@ def make_opt(cfg, dtype=None, shapes=((4, 2), (2, 2)), maxdim=2, seed=0):
     gc = dict(adam=st.AdamGraftingConfig(beta2=0.9, epsilon=1e-8), rmsprop=st.RMSpropGraftingConfig(beta2=0.9, epsilon=1e-8),
               sgd=st.SGDGraftingConfig(), adagrad=st.AdaGradGraftingConfig(epsilon=1e-8)).get(g)
     pc = st.EigenvalueCorrectedShampooPreconditionerConfig() if cfg.get("soap") else st.ShampooPreconditionerConfig()
-    opt = DistributedShampoo(params, lr=0.05, betas=(cfg.get("beta1", 0.0), 0.9), epsilon=1e-6, momentum=cfg.get("momentum", 0.0),
+    dc = None
+    if cfg.get("ddp") is not None:
+        _ensure_pg()
+        dc = st.DDPShampooConfig(**cfg["ddp"])
+    opt = DistributedShampoo(params, distributed_config=dc, lr=0.05, betas=(cfg.get("beta1", 0.0), 0.9), epsilon=1e-6, momentum=cfg.get("momentum", 0.0),
                              weight_decay=0.01, max_preconditioner_dim=maxdim, precondition_frequency=2, start_preconditioning_step=2,
                              grafting_config=gc, preconditioner_config=pc, use_merge_dims=False, preconditioner_dtype=dtype or torch.float64)
     return opt, params
@@ -246,6 +268,9 @@ def run_case(case, tier, seed):
     if case.startswith("mask/"):
         from checks import c13
         return c13._mask_case(case)
+    if case.startswith("update/"):
+        from checks import dist as D
+        return D.run_update_params(case)
     if case == "wiring/steps-per-group":
         from checks import wiring
         return wiring.run_steps_two_groups(case, tier)
@@ -268,7 +293,7 @@ def native_history(cfg_name, seed, steps=6):
     import random
     import torch
     from distributed_shampoo import shampoo_types as st
-    cfg = CONFIGS[cfg_name]
+    cfg = ALL_CONFIGS[cfg_name]
     rng = random.Random(f"{cfg_name}/{seed}")
     shapes = ((2, 2), (2, 2), (2, 2))
     opt, params = make_opt(cfg, shapes=shapes, maxdim=4, seed=seed)
@@ -328,7 +353,7 @@ def native_crosswire(cfg_name, seed, steps=6):
     present at exactly the same steps must stay identical to each other when initialised identically."""
     import random
     import torch
-    cfg = CONFIGS[cfg_name]
+    cfg = ALL_CONFIGS[cfg_name]
     rng = random.Random(f"x/{cfg_name}/{seed}")
     shapes = ((2, 2), (2, 2), (2, 2), (2, 2))
     opt, params = make_opt(cfg, shapes=shapes, maxdim=4, seed=seed)
@@ -351,7 +376,7 @@ def native_crosswire(cfg_name, seed, steps=6):
 def bounded(tier, seed):
     n = 6 if tier == "quick" else 60
     evals, viol, samples, distinct = 0, [], [], set()
-    for name in CONFIGS:
+    for name in ALL_CONFIGS:
         for k in range(n):
             for fn_, kind in ((native_history, "history"), (native_crosswire, "twins")):
                 hist, bad = fn_(name, seed * 1000 + k)
@@ -370,7 +395,7 @@ def bounded(tier, seed):
         viol.append(dict(ob="bounded/two-groups-step-counters", func="DistributedShampoo.step", input=dict(groups=2), text=bad, detail=bad, replay=dict(kind="two_group_steps")))
     return dict(evaluations=evals, distinct_nontrivial=len(distinct),
                 rule="random gradient-presence histories (6 steps) on equal-shaped blocks through the real optimizer: absent parameters bit-identical in value and state, all-absent step keeps the counter, twin parameters stay identical despite disturbers; distinct = distinct (config, oracle, history)",
-                samples=samples, bound=f"{n} seeds x 5 configurations x 2 oracles", violations=viol[:5])
+                samples=samples, bound=f"{n} seeds x {len(ALL_CONFIGS)} configurations (5 default-distributor, 2 through the real DDP distributor on a world-size-1 gloo group) x 2 oracles", violations=viol[:5])
 
 
 def replay(r):
